@@ -59,6 +59,49 @@ macro_rules! actions {
     };
 }
 
+#[cfg(feature = "verif")]
+pub(crate) fn verif_ctx(
+    kind: u8,
+    id: u16,
+    requestor_clock: [u8; 8],
+    requestor_port: u16,
+) -> TimestampContext {
+    use actions::TimestampContextInner as I;
+    let inner = match kind {
+        0 => I::Sync { id },
+        1 => I::DelayReq { id },
+        2 => I::PDelayReq { id },
+        _ => I::PDelayResp {
+            id,
+            requestor_identity: PortIdentity {
+                clock_identity: crate::config::ClockIdentity(requestor_clock),
+                port_number: requestor_port,
+            },
+        },
+    };
+    TimestampContext { inner }
+}
+
+#[cfg(feature = "verif")]
+pub(crate) fn verif_ctx_dump(ctx: &TimestampContext) -> std::string::String {
+    use actions::TimestampContextInner as I;
+    match &ctx.inner {
+        I::Sync { id } => std::format!("sync:{id}"),
+        I::DelayReq { id } => std::format!("dreq:{id}"),
+        I::PDelayReq { id } => std::format!("pdreq:{id}"),
+        I::PDelayResp {
+            id,
+            requestor_identity,
+        } => {
+            let mut h = std::string::String::new();
+            for b in requestor_identity.clock_identity.0 {
+                h.push_str(&std::format!("{b:02x}"));
+            }
+            std::format!("pdresp:{id}:{h}:{}", requestor_identity.port_number)
+        }
+    }
+}
+
 mod actions;
 mod bmca;
 mod master;
